@@ -91,7 +91,7 @@ def evaluate(case) -> Verdict:
         parent = names[i + 1] if i + 1 < n else (names[0] if fault == "cycle" else None)
         sources[names[i]] = R.to_source(t, parent)
     env = envs.make_env({"mode": "strict", "extra": True, "twice": False}, sources)
-    o = oc.outcome_of(lambda: env.get_template("t0").render(**DATA))
+    o = oc.render(case, lambda: env.get_template("t0"), **DATA)
     mismatched = any(len(b) > 4 and b[4] != b[1] for t in chain for b in R.blocks_of(t["items"]))
     try:
         if fault == "cycle" or mismatched:
